@@ -24,6 +24,16 @@ def Dict.step (H : Bytes → UInt32) (d : Dict) : DOp → DRes × Dict
   | .dup v alias => d.dup H v alias
   | .rem v => d.remove H v
 
+/-- the implementation with the candidate repair `fixes/F50.diff` -/
+def Dict.stepF (H : Bytes → UInt32) (d : Dict) : DOp → DRes × Dict
+  | .ins v len zc alias => d.insertFixed H v len zc alias
+  | .dup v alias => d.dup H v alias
+  | .rem v => d.remove H v
+
+def Dict.runF (H : Bytes → UInt32) : Dict → List DOp → List DRes × Dict
+  | d, [] => ([], d)
+  | d, o :: os => let (r, d') := d.stepF H o; let (rs, d'') := Dict.runF H d' os; (r :: rs, d'')
+
 abbrev SMap := Bytes → Nat
 
 def SMap.upd (m : SMap) (k : Bytes) (n : Nat) : SMap := fun s => if s = k then n else m s
